@@ -312,6 +312,17 @@ func volumeReplay(raw json.RawMessage) (msg string, bad bool, is bool) {
 	var probe struct {
 		Chunk *int `json:"chunk"`
 	}
+	var big struct {
+		Kind *string `json:"bigBufferKind"`
+	}
+	if err := json.Unmarshal(raw, &big); err == nil && big.Kind != nil {
+		var c bigBufferCase
+		if err := json.Unmarshal(raw, &c); err != nil {
+			return "", false, false
+		}
+		msg, bad = checkBigBuffer(c)
+		return msg, bad, true
+	}
 	if err := json.Unmarshal(raw, &probe); err != nil || probe.Chunk == nil {
 		return "", false, false
 	}
@@ -333,4 +344,124 @@ func init() {
 			return prev(raw)
 		}
 	}
+}
+
+// TestC19BigBuffer: more than 2 GiB BUFFERED at once (BufferSize 2^31 + 64 KiB,
+// handed over with Reset so that the parser adopts the slice): a run of one
+// byte, skipped with Parse(nil) up to a little behind buffer position 2^31,
+// then parsed in small blocks. The blocks behind 2^31 lie inside the run and
+// have to obey the run clause. (2 GiB of memory and about 10 s per parser.)
+func TestC19BigBuffer(t *testing.T) {
+	st := statsFor("C19")
+	for _, kind := range kindsFromEnv([]string{"BUP", "HP"}) {
+		kind := kind
+		t.Run(kind, func(t *testing.T) {
+			rapid.Check(t, func(t *rapid.T) {
+				c := bigBufferCase{Kind: kind,
+					Beyond: rapid.SampledFrom([]int{4096 + 64, 65536, 20_000}).Draw(t, "beyond"),
+					Window: rapid.SampledFrom([]int{1 << 16, 4096, 1 << 20}).Draw(t, "window"),
+					Byte:   rapid.SampledFrom([]byte{'a', 0, 0xff}).Draw(t, "byte"),
+					Over:   rapid.SampledFrom([]int{32, 70, 500, 4000}).Draw(t, "over")}
+				markRunning("C19", "bigbuffer-"+kind, c, "the process ended while this case ran")
+				beginCase("C19", "bigbuffer-"+kind, func() any { return c })
+				defer endCase()
+				msg, bad := checkBigBuffer(c)
+				endCase()
+				clearRunning("C19", "bigbuffer-"+kind)
+				if bad {
+					recordFailure("C19", "bigbuffer-"+kind, c, msg)
+					t.Fatalf("C19 violated (big buffer, %s): %s", kind, msg)
+				}
+				st.eval([]string{"big-buffer:>2GiB-buffered", "kind:" + kind}, true, hashJSON(c), "bigbuffer-"+kind, func() any { return c })
+			})
+		})
+	}
+}
+
+type bigBufferCase struct {
+	Kind   string `json:"bigBufferKind"`
+	Beyond int    `json:"beyond"`
+	Window int    `json:"window"`
+	Byte   byte   `json:"byte"`
+	// Over: the skipped blocks have 2^30 + Over bytes, the parsed part starts
+	// at buffer position 2^31 + 2*Over.
+	Over int `json:"over"`
+}
+
+var bigBufferArray []byte
+
+func checkBigBuffer(c bigBufferCase) (msg string, bad bool) {
+	defer func() {
+		if r := recover(); r != nil {
+			msg, bad = fmt.Sprintf("panic: %v", r), true
+		}
+	}()
+	const mark = 1 << 31
+	total := mark + 2*c.Over + c.Beyond
+	cfg := PCfg{Kind: c.Kind, BufferSize: mark + 1<<16, WindowSize: c.Window, BlockSize: 1<<30 + c.Over}
+	switch c.Kind {
+	case "DHP", "BDHP":
+		cfg.HashBits1, cfg.HashBits2 = 14, 15
+	default:
+		cfg.HashBits = 14
+	}
+	p, err := cfg.LZ().NewParser()
+	if err != nil {
+		return "", false
+	}
+	if cap(bigBufferArray) < mark+1<<16+8 {
+		bigBufferArray = make([]byte, mark+1<<16+8)
+	}
+	data := bigBufferArray[:total]
+	if data[0] != c.Byte || data[total-1] != c.Byte {
+		for i := range bigBufferArray {
+			bigBufferArray[i] = c.Byte
+		}
+	}
+	if err := p.Reset(data); err != nil {
+		return fmt.Sprintf("Reset(%d bytes) with BufferSize %d: %v", total, cfg.BufferSize, err), true
+	}
+	w := 0
+	// skip to 64 bytes behind the mark
+	for k := 0; k < 2; k++ {
+		n, err := p.Parse(nil, 0)
+		if err != nil || n != cfg.BlockSize {
+			return fmt.Sprintf("Parse(nil) at buffer position %d = (%d, %v); want BlockSize %d", w, n, err, cfg.BlockSize), true
+		}
+		w += n
+	}
+	// a small block sized so that the next one starts 64 bytes behind the mark
+	// cannot be asked for: BlockSize is fixed. Parse what is left in blocks.
+	var blk lz.Block
+	for w < total {
+		n, err := p.Parse(&blk, 0)
+		if err != nil || n < 1 || n > total-w {
+			return fmt.Sprintf("Parse at buffer position %d (%d unparsed) = (%d, %v)", w, total-w, n, err), true
+		}
+		if n >= 32 && len(blk.Literals) > 1 {
+			return fmt.Sprintf("run clause: block at buffer position %d (%d bytes inside a run of %#x that began at position 0, window %d) carries %d literal bytes in %d sequences; at most 1 allowed",
+				w, n, c.Byte, c.Window, len(blk.Literals), len(blk.Sequences)), true
+		}
+		pos := w
+		for i, s := range blk.Sequences {
+			pos += int(s.LitLen)
+			if s.Offset == 0 || int(s.Offset) > c.Window || int(s.Offset) > pos {
+				return fmt.Sprintf("block at buffer position %d, seq %d: Offset %d (window %d, position %d)", w, i, s.Offset, c.Window, pos), true
+			}
+			pos += int(s.MatchLen)
+		}
+		if pos+len(blk.Literals)-litSum(blk.Sequences) != w+n {
+			return fmt.Sprintf("block at buffer position %d: n=%d but the block stands for %d bytes", w, n, pos+len(blk.Literals)-litSum(blk.Sequences)-w), true
+		}
+		w += n
+	}
+	return "", false
+}
+
+func litSum(seqs []lz.Seq) int {
+	n := 0
+	for _, s := range seqs {
+		n += int(s.LitLen)
+	}
+	return n
 }
